@@ -533,6 +533,12 @@ def run_c19(run):
         if dc and dc[0][2] == 0 and e["term"] == "UEOF" and any(c[0] // BS > dc[0][0] // BS and c[6] == dc[0][0] + dc[0][1] for c in e["new"]):
             nb += 1
     run.cov["empty_chunk_boundary_cases_read_as_end_of_log"] = nb
+    if nb > 0:
+        # the property's clause holds for every record that has a payload; for an EMPTY record (a header-only chunk, which a
+        # real WAL never contains: every batch has a 12-byte header) it does not: known finding, reported each run while it exists
+        run.violation({"kind": "damaged-empty-chunk-at-sync-boundary-read-as-end-of-log"},
+                      "%d damaged header-only chunks whose end equals a later chunk's sync offset were read as end of log "
+                      "(ErrUnexpectedEOF) instead of corruption" % nb)
     for r in runs[1:3]:
         e = json.loads(r[0])
         run.sample({k: e[k] for k in ("sizes", "dlo", "dhi", "dkind", "new", "recs", "term")})
